@@ -289,8 +289,7 @@ def run(ctx):
     if ctx.counters.get('verdict_nontrivial', 0) < ctx.counters.get(
             'runs', 0) // 10:
         ctx.inconclusive_because('too few non-trivial runs')
-    if ctx.counters.get('runs_watchdog', 0):
-        ctx.inconclusive_because('a run hit the watchdog')
+    ctx.judge_watchdog('runs')
 
 
 def replay(data):
